@@ -293,15 +293,17 @@ func (m *Mem) comp(st *State, name string, sort Sort) Term {
 
 // refAxiom states that every reference stored in component t designates an object allocated so far
 // (type safety of the heap; needed inside quantified contracts, where per-load typing facts are absent).
+// Only allocated objects (r < alloc) are constrained: beyond the allocation counter the arrays are free,
+// which is where objects allocated by contracted callees appear in the caller's view.
 func (m *Mem) refAxiom(t Term, alloc Term) {
 	vs := arrValSort(t.Sort)
 	if vs == SInt {
-		m.c.Raw(fmt.Sprintf("(assert (forall ((r Int)) (! (and (<= 0 (select %s r)) (< (select %s r) %s)) :pattern ((select %s r)))))", t.S, t.S, alloc.S, t.S))
+		m.c.Raw(fmt.Sprintf("(assert (forall ((r Int)) (! (=> (< r %s) (and (<= 0 (select %s r)) (< (select %s r) %s))) :pattern ((select %s r)))))", alloc.S, t.S, t.S, alloc.S, t.S))
 		return
 	}
 	if strings.HasPrefix(string(vs), "(Array ") && arrValSort(vs) == SInt {
 		ks := arrIdxSort(vs)
-		m.c.Raw(fmt.Sprintf("(assert (forall ((r Int) (k %s)) (! (and (<= 0 (select (select %s r) k)) (< (select (select %s r) k) %s)) :pattern ((select (select %s r) k)))))", ks, t.S, t.S, alloc.S, t.S))
+		m.c.Raw(fmt.Sprintf("(assert (forall ((r Int) (k %s)) (! (=> (< r %s) (and (<= 0 (select (select %s r) k)) (< (select (select %s r) k) %s))) :pattern ((select (select %s r) k)))))", ks, alloc.S, t.S, t.S, alloc.S, t.S))
 	}
 }
 
